@@ -95,7 +95,7 @@ func (f *Frame) set(v ssa.Value, ts []Term) {
 
 func (f *Frame) fresh(v ssa.Value, st *State) []Term {
 	ts := f.ctx.freshLeaves(v.Name(), v.Type())
-	st.assume(f.ctx, typeInv(v.Type(), ts))
+	f.ctx.assumeFact(st, typeInv(v.Type(), ts))
 	return ts
 }
 
@@ -432,7 +432,7 @@ func (f *Frame) binop(in *ssa.BinOp, st *State) []Term {
 		c.emit(fmt.Sprintf("(declare-fun %s (Int Int) Int)", uf))
 	}
 	r := c.define("bit", app(SInt, uf, a, b2))
-	st.assume(c, typeInv(in.Type(), []Term{r}))
+	c.assumeFact(st, typeInv(in.Type(), []Term{r}))
 	if in.Op == token.OR || in.Op == token.XOR || in.Op == token.AND {
 		// bounds for non-negative operands
 		if _, uns := isUnsigned(in.Type()); uns && in.Op == token.AND {
@@ -671,14 +671,14 @@ func (f *Frame) execTypeAssert(in *ssa.TypeAssert, st *State) {
 		}
 		res = append(res, ok)
 		if len(val) > 0 && !types.IsInterface(in.AssertedType) {
-			st.assume(c, Implies(ok, typeInv(in.AssertedType, val)))
+			c.assumeFact(st, Implies(ok, typeInv(in.AssertedType, val)))
 		}
 		f.set(in, res)
 		return
 	}
 	f.check(st, "assert-type", in.Pos(), "type assertion succeeds", ok)
 	if !types.IsInterface(in.AssertedType) {
-		st.assume(c, typeInv(in.AssertedType, val))
+		c.assumeFact(st, typeInv(in.AssertedType, val))
 	}
 	f.set(in, val)
 }
